@@ -71,22 +71,20 @@ func (m *Sparse) Load(addr model.Addr, w expr.Width) (expr.Expr, bool) {
 		return nil, false
 	}
 
-	var finalEx expr.Expr
-	if low := ints[0].Low; low == addr {
-		finalEx = ints[0].Val.expr()
-	} else {
-		finalEx = ints[0].Val.cutBegin(expr.Width(addr - low)).expr()
+	cut := func(o intervaltree.KV[model.Addr, cutExpr]) expr.Expr {
+		c, low := o.Val, o.Low
+		if low < addr {
+			c, low = c.cutBegin(expr.Width(o.High-addr)), addr
+		}
+		if end < o.High {
+			c = c.cutEnd(expr.Width(end - low))
+		}
+		return c.expr()
 	}
 
+	finalEx := cut(ints[0])
 	for _, o := range ints[1:] {
-		var ex expr.Expr
-		if o.High <= end {
-			ex = o.Val.expr()
-		} else {
-			ex = o.Val.cutEnd(expr.Width(o.High - end)).expr()
-		}
-
-		ex = expr.NewBinary(expr.Lsh, ex, expr.ConstFromUint((o.Low-addr)*8), w)
+		ex := expr.NewBinary(expr.Lsh, cut(o), expr.ConstFromUint((o.Low-addr)*8), w)
 		finalEx = exprtools.BitOr(finalEx, ex, w)
 	}
 
